@@ -65,3 +65,17 @@ Inductive presents : list Z -> list I -> Prop :=
 (* number of cycles in which a 1-bit wire is high *)
 Definition nhigh (f : I -> Z) (ins : list I) : nat := length (filter (fun i => negb (f i =? 0)) ins).
 End Presents.
+
+(* ---- "the consumer keeps up": between two consecutive frame completions (both edges included) the consumer's ready is high at
+   two clock edges at least (the first raises valid, the second is the transfer).  Stated as a monitor over the per-clock events
+   (a frame completes at this edge?, ready at this edge): hc = number of ready edges since the last completion edge, that edge
+   included, capped at 2 (2 = the previous byte, if any, has been taken). *)
+Definition hnext (hc : Z) (comp : bool) (ready : Z) : Z :=
+  let hc0 := if comp then 0 else hc in
+  if ready =? 0 then hc0 else Z.min 2 (hc0 + 1).
+Fixpoint keeps_up (hc : Z) (evs : list (bool * Z)) : Prop :=
+  match evs with
+  | [] => True
+  | (comp, ready) :: r =>
+      (comp = true -> hc = 2 \/ (hc = 1 /\ ready <> 0)) /\ keeps_up (hnext hc comp ready) r
+  end.
